@@ -122,6 +122,16 @@ class RefModel:
     def __getattr__(self, k):
         return getattr(self.base, k)
 
+    # ---- two-tier comparison support (sub-interval / section tables)
+    def uses_subinterval_tables(self):
+        return any(p.uses_subinterval_tables() for p in self.parts)
+
+    def with_package_tables(self):
+        return RefModel(self.base, [p.with_package_tables() for p in self.parts])
+
+    def natural(self):
+        return RefModel(self.base, [p.natural() for p in self.parts])
+
 
 def make_ref(cfg, sigma=-1.0, twist=1.0):
     stack, mat, off = laminate_of(cfg)
@@ -159,6 +169,45 @@ def worst(got, ref, scale, rtol, atol=0.0):
     err = np.abs(got - ref) / tol
     idx = np.unravel_index(np.argmax(err), err.shape)
     return float(err[idx]), tuple(int(i) for i in idx)
+
+
+STRICT_RTOL = 1e-9
+SIG_TABLES = 'C10:sub-interval-integral-tables-lose-accuracy-by-cancellation'
+
+
+def tiered(ref, got, exp, S_cond, rtol, build, mask=None):
+    """Two-tier comparison for matrices assembled from sub-interval / section integral tables.
+    build(refvariant) -> (matrix, scale) assembled by the caller from a reference variant (package tables / natural scales).
+    Returns (status, ratio, index, info):
+      'violation' : outside the floating-point envelope of the generated table functions (tier 2, as before), or inside it but NOT
+                    reproduced by the reference assembled from the package's own table values;
+      'known'     : inside the envelope, farther than STRICT_RTOL of the natural entry scale from the exact value, and reproduced to
+                    rtol by the reference assembled from the package's own table values (deviation explained by the tables alone);
+      'ok'        : within STRICT_RTOL of the natural scale (and within the envelope)."""
+    ratio, idx = worst(got, exp, S_cond, rtol)
+    if ratio > 1:
+        return 'violation', ratio, idx, {}
+    if not ref.uses_subinterval_tables():
+        return 'ok', ratio, idx, {}
+    _, Nat = build(ref.natural())
+    Nat = np.abs(Nat)
+    if mask is not None:
+        Nat = mask(Nat)
+    err = np.abs(got - exp)
+    tol = STRICT_RTOL * Nat + 1e-300
+    r1 = err / tol
+    i1 = np.unravel_index(np.argmax(r1), r1.shape)
+    # consistency of the kernel with the package's own tables (always demanded)
+    Epk, Spk = build(ref.with_package_tables())
+    if mask is not None:
+        Epk, Spk = mask(Epk), mask(Spk)
+    r2, i2 = worst(got, Epk, Spk, rtol)
+    if r2 > 1:
+        return 'violation', float(r2), i2, dict(kind='kernel differs from the same formula evaluated with the package\'s own table values',
+                                                got=float(got[i2]), with_package_tables=float(Epk[i2]))
+    if r1[i1] <= 1:
+        return 'ok', ratio, idx, {}
+    return 'known', float(r1[i1]), tuple(int(v) for v in i1), dict(rel_to_natural_scale=float(err[i1] / (Nat[i1] + 1e-300)))
 
 
 REUSE_COORDS = ('offset', 'geom', 'r', 'alpha', 'fbase', 'ord', 'sub', 'preload', 'mu')
